@@ -14,6 +14,7 @@ Definition t_bytes := TSlice (TScalar SByte).
 
 Definition leaf : ty :=
   TNamed "Leaf" (TStruct [("A", t_int32); ("S", t_string); ("B", t_bytes); ("F", TScalar SF64)]).
+Definition plain : ty := TNamed "Pt" (TStruct [("X", TScalar SF64); ("N", t_int32); ("Ok", TScalar SBool)]).
 Definition kind : ty := TNamed "Kind" t_int32.            (* a named scalar *)
 Definition label : ty := TNamed "Label" t_string.         (* a named string scalar *)
 
@@ -131,7 +132,9 @@ Definition multi : list ty :=
    (* fields of NAMED slice and map types (like testobj's TestFloatSlice, TestStructSliceLiteral, TestStringFloatMap) *)
    TStruct [("NS", TNamed "NInts" (TSlice t_int32)); ("NL", TNamed "NLeaves" (TSlice leaf));
             ("NP", TNamed "NLeafPtrs" (TSlice (TPtr leaf))); ("NM", TNamed "NFlags" (TMap t_string t_int32));
-            ("NML", TNamed "NLeafMap" (TMap t_string (TPtr leaf))); ("PNS", TPtr (TNamed "NFloats" (TSlice (TScalar SF64))))]].
+            ("NML", TNamed "NLeafMap" (TMap t_string (TPtr leaf))); ("PNS", TPtr (TNamed "NFloats" (TSlice (TScalar SF64))))];
+   (* slices of PLAIN structs (no string, bytes or collection inside) *)
+   TStruct [("Pts", TSlice plain); ("PtsPtr", TPtr (TSlice plain)); ("One", plain); ("PM", TMap t_string plain); ("PP", TSlice (TPtr plain))]].
 
 Definition rep_shapes : list ty :=
   dedup_ty (shapes1 rep_skinds ++ shapes2 [SString; SInt KInt32] [SInt KInt32; SString]).
